@@ -30,6 +30,7 @@ import (
 	"strings"
 	"testing"
 
+	"github.com/davecgh/go-spew/spew"
 	"github.com/go-kit/log"
 	v1 "k8s.io/api/core/v1"
 	discovery "k8s.io/api/discovery/v1"
@@ -86,6 +87,11 @@ type vkStack struct {
 	calls   []vsEv // the handler calls made by the reconcilers, in harness terms (for the model)
 	// the work queue: a request whose Reconcile returned an error is served again after later events; one that returned nil is not
 	pendingCfg *reconcile.Request
+	// the *config.Config the config reconciler handed to SetConfig (it keeps the same object as its memo) and its deep dump at that time
+	cfgObj      *config.Config
+	cfgDump     string
+	cfgCalls    int    // SetConfig calls during the current event
+	cfgAccepted string // harness-level effective configuration at the last ACCEPTED SetConfig call
 	truth   *vkTruth
 }
 
@@ -264,6 +270,8 @@ func vkNewStack(ignore bool, sl *vsSL, truth *vkTruth) *vkStack {
 	st.cfgRec = &controllers.ConfigReconciler{Client: st.fc, Logger: lg, Scheme: sch, Namespace: vkNS, ValidateConfig: config.DontValidate, ForceReload: forceReload,
 		Handler: func(l log.Logger, c *config.Config) controllers.SyncState {
 			st.calls = append(st.calls, vsEv{Op: "cfg", Cfg: vkEffective(st.truth.cfg, st.truth.nodes)})
+			st.cfgCalls++
+			st.cfgObj, st.cfgDump = c, vkDump(c)
 			return st.k.c.SetConfig(l, c)
 		}}
 	pod := &v1.Pod{ObjectMeta: metav1.ObjectMeta{Name: "speaker-x", Namespace: vkNS, UID: "0000-verif"}}
@@ -271,6 +279,11 @@ func vkNewStack(ignore bool, sl *vsSL, truth *vkTruth) *vkStack {
 	st.bgpRec = &controllers.ServiceBGPStatusReconciler{Client: st.fc, Logger: lg, NodeName: vbNodeNames[0], Namespace: vkNS, SpeakerPod: pod, PeersFetcher: bc.PeersForService}
 	return st
 }
+
+// a deterministic deep dump (map keys sorted, no pointer addresses): any in-place change of the configuration shows
+var vkSpew = spew.ConfigState{Indent: " ", SortKeys: true, DisablePointerAddresses: true, DisableCapacities: true, SpewKeys: true}
+
+func vkDump(c *config.Config) string { return vkSpew.Sdump(c) }
 
 func vkReq(ns, name string) reconcile.Request {
 	return reconcile.Request{NamespacedName: types.NamespacedName{Namespace: ns, Name: name}}
@@ -395,6 +408,12 @@ func (st *vkStack) apply(e vkEv) {
 		}
 	case "resync":
 		st.reload <- controllers.NewReloadEvent()
+	case "touch":
+		// an event of a watched kind that leaves the rendered configuration unchanged (an unrelated Secret / ConfigMap / Namespace)
+		if _, err := st.cfgRec.Reconcile(ctx, vkReq(vkNS, "unrelated-object")); err != nil && st.pendingCfg == nil {
+			r := vkReq(vkNS, "unrelated-object")
+			st.pendingCfg = &r
+		}
 	}
 	st.drain()
 	// requeued configuration request (the handler answered SyncStateError): served again after this event
@@ -459,6 +478,20 @@ func vkFresh(ignore bool, sl *vsSL, truth *vkTruth) vsObs {
 	}
 	f.apply(vkEv{Op: "resync"})
 	return vsObserve(f.k)
+}
+
+func vkFirstDiff(a, b string) string {
+	la, lb := strings.Split(a, "\n"), strings.Split(b, "\n")
+	for i := 0; i < len(la) && i < len(lb); i++ {
+		if la[i] != lb[i] {
+			lo := i - 2
+			if lo < 0 {
+				lo = 0
+			}
+			return fmt.Sprintf("dump line %d: %q became %q (context %q)", i, strings.TrimSpace(la[i]), strings.TrimSpace(lb[i]), strings.TrimSpace(strings.Join(la[lo:i], " ")))
+		}
+	}
+	return "dumps differ in length"
 }
 
 // ---- generator
@@ -641,8 +674,13 @@ func vkGenHistory(r *rand.Rand) (bool, []vkEv) {
 			if r.Intn(2) == 0 {
 				h = append(h, vkEv{Op: "cfg", Cfg: vkGenCfg(r)})
 			}
+		case x < 99:
+			h = append(h, vkEv{Op: "touch"})
 		default:
 			h = append(h, vkEv{Op: "resync"})
+		}
+		if r.Intn(4) == 0 {
+			h = append(h, vkEv{Op: "touch"})
 		}
 	}
 	return ignore, h
@@ -717,7 +755,42 @@ func vkRunHistory(out *vOut, id int, kind string, ignore bool, h []vkEv) {
 			truth.cfg = e.Cfg
 		}
 		st.calls = nil
+		st.cfgCalls = 0
+		waited := st.pendingCfg != nil
 		st.apply(e)
+		// (5) nobody mutates the configuration object shared with the config reconciler (its memo)
+		if st.cfgObj != nil {
+			out.Stat("stack_shared_configuration_checks", 1)
+			if now := vkDump(st.cfgObj); now != st.cfgDump {
+				done2 := append(append([]vkEv{}, done...), e)
+				if !failed["speaker-mutates-shared-configuration"] {
+					failed["speaker-mutates-shared-configuration"] = true
+					out.Fail("speaker-mutates-shared-configuration",
+						fmt.Sprintf("real reconcilers + speaker, event %d (%s): the *config.Config handed to SetConfig (kept by the ConfigReconciler as currentConfig) was modified in place by a handler: %s",
+							len(done2)-1, e.Op, vkFirstDiff(st.cfgDump, now)), map[string]any{"stack_history": map[string]any{"ignore": ignore, "evs": done2}})
+				}
+				st.cfgDump = now
+			}
+		}
+		// (6) an event that leaves the rendered configuration unchanged never looks like a configuration change
+		eff, _ := json.Marshal(vkEffective(truth.cfg, truth.nodes))
+		if st.cfgCalls > 0 {
+			if st.pendingCfg == nil && !waited && string(eff) == st.cfgAccepted && st.cfgAccepted != "" {
+				done2 := append(append([]vkEv{}, done...), e)
+				if !failed["unrelated-event-reloads-configuration"] {
+					failed["unrelated-event-reloads-configuration"] = true
+					out.Fail("unrelated-event-reloads-configuration",
+						fmt.Sprintf("real reconcilers + speaker, event %d (%s): SetConfig was called again (%d times) although the configuration the cluster objects denote did not change since it was accepted (a reload and a re-sync of every Service for nothing)",
+							len(done2)-1, e.Op, st.cfgCalls), map[string]any{"stack_history": map[string]any{"ignore": ignore, "evs": done2}})
+				}
+			}
+			if st.pendingCfg == nil {
+				st.cfgAccepted = string(eff)
+			}
+			out.Stat("stack_setconfig_calls", st.cfgCalls)
+		} else if e.Op == "touch" || e.Op == "node" {
+			out.Stat("stack_events_without_reload", 1)
+		}
 		vbAdsChanged = func(k string) { st.changed[k] = true } // (a fresh stack built below re-targets the hook)
 		done = append(done, e)
 		out.Stat("stack_events", 1)
@@ -873,6 +946,19 @@ func TestVerifSpkStack(t *testing.T) {
 		{Op: "cfg", Cfg: onePool},
 		{Op: "svc", Name: 2, Svc: &vsSvc{LB: true, IPs: []string{}, Eps: good}},
 		{Op: "eps", Name: 0, Svc: svc("10.20.30.1", good)},
+	})
+	// an advertisement whose spec.peers names two peers NOT in alphabetical order; a Service of the pool is announced; then
+	// events that do not change the configuration: no reload, and the configuration object stays as rendered
+	unsorted := &vkCfg{Peers: peers, Pools: []vkPool{{CIDRs: []string{"10.20.30.0/24"}, L2: l2,
+		BGP: []vkAdv{{vbBAdv: vbBAdv{Agg4: 32, Agg6: 128, Comms: []int{}, Nodes: allNodes, NodeFalse: []int{}, Peers: []int{1, 0}}}}}}}
+	id++
+	vkRunHistory(out, id, "corpus-unsorted-peer-list-then-unrelated-events", false, []vkEv{
+		{Op: "node", Node: nd(0, nil, false)}, {Op: "node", Node: nd(1, nil, false)}, {Op: "node", Node: nd(2, nil, false)},
+		{Op: "cfg", Cfg: unsorted}, {Op: "resync"}, {Op: "touch"},
+		{Op: "svc", Name: 0, Svc: svc("10.20.30.1", good)},
+		{Op: "touch"},
+		{Op: "node", Node: nd(2, [][2]int{{1, 1}}, false)},
+		{Op: "eps", Name: 0, Svc: svc("10.20.30.1", good)}, {Op: "touch"},
 	})
 	if rp := os.Getenv("VERIF_REPLAY"); rp != "" {
 		if b, err := os.ReadFile(rp); err == nil {
